@@ -2,8 +2,9 @@ import Model.CacheDir
 import Gen.C04
 
 /-! The facts about `pkg/cache` of the tree being checked: `Gen/C04.lean` is regenerated on every run by probing the
-compiled code (harness `facts`: the real `SaveToDisk` run over an existing directory while descriptors and hard
-links are held on the old files; the real `LoadFromDisk` beside truncated `.tmp` files).  The compiled driver
+compiled code (harness `facts`: the real `SaveToDisk` run in a child process under `strace` over an existing directory —
+`cacheSaveAtomic` = nothing in place ∧ rename only ∧ sync before the rename ∧ the inode/hard-link cross-check; the real
+`LoadFromDisk` beside truncated `.tmp` files).  The compiled driver
 (`MainC01`, `MainC04`) and the theorems of `Spec.C04` use the model at exactly these facts. -/
 namespace CacheDir
 
